@@ -9,7 +9,10 @@ var commonAssume = []string{
 
 const histRule = "one case = one generated history (explicit operation list over 1-3 builders and 2-6 zoo targets) executed under the scheduler with seeded GC / stack-growth events at goom's hook points; non-trivial = the history contains at least one environment event (GC, stack growth, builder dropped, rejected operation) and at least one oracle evaluation on a target; distinct = distinct hash of (operation list, context-switch sequence, fired events)"
 
+const varRule = "one case = one generated Set/Apply/Cancel/Reset history over 1-4 zoo variables (27 variables of every kind, exported by pointer and unexported by package.name) and 1-2 builders with seeded GC events between and inside steps; every step is followed by a direct read and an accessor read; non-trivial = at least two Set/Apply operations or a GC event; distinct = hash of (operations, fired events)"
+
 func init() {
+	props["C08"] = propCfg{World: "var", Level: "exploration", Quick: 6000, Thorough: 400000, Chunk: 200, Rule: varRule, Assume: commonAssume}
 	props["C01"] = propCfg{World: "hist", Level: "exploration", Quick: 2400, Thorough: 120000, Chunk: 50, Rule: histRule, Assume: commonAssume}
 	props["C02"] = propCfg{World: "hist", Level: "exploration", Quick: 2400, Thorough: 120000, Chunk: 50, Rule: histRule, Assume: commonAssume}
 	props["C12"] = propCfg{World: "hist", Level: "exploration", Quick: 2400, Thorough: 120000, Chunk: 50, Rule: histRule, Assume: commonAssume}
